@@ -25,6 +25,7 @@ class Gen:
         self.occupied = set()   # arena slots in use (also by blocks whose record was cleared)
         self.stale = []         # labels released earlier
         self.orphans = []       # labels whose record was cleared: the client still owns the block
+        self.no_drop = False    # malformed stream: the generator's picture of the detector may be wrong, never drop
         self.period = "disabled"
         self.stage = 0
         self.hot = [rng.randrange(HP) for _ in range(rng.choice([1, 2, 3]))]
@@ -199,7 +200,7 @@ class Gen:
         # the client usually gives the forgotten blocks back to the underlying allocator itself
         keep = []
         for l in self.orphans:
-            if self.rng.random() < 0.8:
+            if not self.no_drop and self.rng.random() < 0.8:
                 self.ops.append("drop " + l)
                 self.occupied.discard(self.blocks[l]["slot"])
                 self.stale.append(l)
@@ -255,6 +256,7 @@ def gen_case(rng, n):
 
 def gen_malformed(rng, n):
     g = Gen(rng)
+    g.no_drop = True
     words = ["alloc", "free", "realloc", "period", "stage", "clear", "mark", "report", "setup", "bogus", "", "0", "-1", "999999999999",
              "null", "same", "b1", "b2", "@5", "all", "checking", "x.c", "inc", "release", "start"]
     for _ in range(n):
@@ -284,7 +286,7 @@ def generate(rng, tier):
     if tier == "quick":
         n, lens = 500, [3, 10, 30, 80, 200, 400]
     else:
-        n, lens = 6000, [10, 50, 200, 600, 1500, 5000]
+        n, lens = 2400, [10, 50, 200, 600, 1500, 4000]
     for _ in range(n):
         out.append(("gen", gen_case(rng, rng.choice(lens))))
     for _ in range(n // 10):
